@@ -53,7 +53,7 @@ structure RObj where
   hasSets : Bool          -- false for I/O and Misc objects (NULL sets, kept as 0 here)
   gkind : Int             -- attr->group.kind / subkind (hwloc_type_cmp)
   gsubkind : Int
-  dmByte : Nat            -- the byte hwloc_dont_merge_group_level() reads: attr->group.dont_merge
+  dmByte : Nat            -- attr->group.dont_merge (Groups only, 0 otherwise)
 deriving DecidableEq, Repr, Inhabited
 
 /-- an object with its four children lists: normal, memory, I/O, Misc -/
@@ -277,13 +277,26 @@ def absorb (o co : RObj) : RObj := { co with ccpuset := co.ccpuset ||| o.ccpuset
     objects that carry sets, and a PU child (never merged with a parent that has memory children) keeps its singleton -/
 def absorbIf (ms : List Tree) (o co : RObj) : RObj := if ms.isEmpty then co else absorb o co
 
+/-- one enqueue step of hwloc__reorder_memory_children: after all elements that are not higher, i.e. before the first element
+    whose complete_nodeset is strictly higher (compare_first(child, *prev) < 0; an empty set is the highest) -/
+def insertMem (c : Tree) : List Tree → List Tree
+  | [] => [c]
+  | x :: xs => if gtFirst x.obj.cnodeset c.obj.cnodeset then c :: x :: xs else x :: insertMem c xs
+/-- hwloc__reorder_memory_children: stable insertion sort of the memory children by first bit of complete_nodeset -/
+def reorderMem (l : List Tree) : List Tree := l.foldl (fun acc c => insertMem c acc) []
+
+/-- the memory children after a merge: parent's ++ child's, re-sorted only when the list that is moved (the child's with
+    `replaceChild`, the parent's otherwise) is not empty (fix 5313a43) -/
+def mergedMs (replaceChild : Bool) (ms cms : List Tree) : List Tree :=
+  if (if replaceChild then cms.isEmpty else ms.isEmpty) then ms ++ cms else reorderMem (ms ++ cms)
+
 /-- merge an object with its single normal child: with `replaceChild` the parent stays and takes the child's normal children,
-    otherwise the child (with the parent's complete sets or-ed in when the parent has memory children) takes the parent's place; in both cases the memory, I/O and
-    Misc lists become parent's ++ child's -/
+    otherwise the child (with the parent's complete sets or-ed in when the parent has memory children) takes the parent's
+    place; in both cases the I/O and Misc lists become parent's ++ child's and the memory list `mergedMs` -/
 def mergeNode (replaceChild : Bool) (o : RObj) (ns ms ios mis : List Tree) : Tree :=
   match ns with
   | [.node co cns cms cios cmis] =>
-    .node (if replaceChild then o else absorbIf ms o co) cns (ms ++ cms) (ios ++ cios) (mis ++ cmis)
+    .node (if replaceChild then o else absorbIf ms o co) cns (mergedMs replaceChild ms cms) (ios ++ cios) (mis ++ cmis)
   | _ => .node o ns ms ios mis
 
 mutual
@@ -307,8 +320,7 @@ def mergeDecision (filters : List Nat) (up down : List RObj) : Option Bool :=
     let type1 := o1.type
     let type2 := o2.type
     let rp := filterOf filters type1 == filterKeepStructure && !(type1 == tGROUP && dontMergeLevel up)
-    -- sic: the C code tests type1 (not type2) before reading group.dont_merge of the objects of level i
-    let rc := filterOf filters type2 == filterKeepStructure && !(type1 == tGROUP && dontMergeLevel down)
+    let rc := filterOf filters type2 == filterKeepStructure && !(type2 == tGROUP && dontMergeLevel down)
     let rc := if !rc && !rp then type1 == tPACKAGE && type2 == tDIE else rc
     if !rc && !rp then none
     else if rp && rc then some (decide (priorityOf type1 ≥ priorityOf type2))
